@@ -299,6 +299,25 @@ def run_case(case, ctx):
             ctx.violation(K + "%s/not-the-bucket-model/%s" % (meth, where),
                           "%d rows do not get the output of their bucket's model (%s rows; fallback = global model)"
                           % (int(bad.sum()), where), cfg=cfg)
+    # batches in which the ONLY row of an unseen bucket comes first (and the single-row batch of it): same answers
+    seen_idx = numpy.where(~unseen)[0]
+    for j in numpy.where(unseen)[0][:3].tolist():
+        for sel in ([j], [j] + seen_idx[:4].tolist()):
+            for meth in methods:
+                try:
+                    got1 = numpy.asarray(getattr(m0, meth)(Q[sel]))
+                except Exception as e:
+                    ctx.violation(K + "%s/raised/%s/unseen-row-first" % (meth, type(e).__name__), str(e)[:120], cfg=cfg)
+                    continue
+                ctx.hit("predict.unseen_row_first")
+                exp1 = numpy.asarray(ref[meth])[sel]
+                # (a row asked alone goes through another BLAS path than inside its batch: last-bits slack, by dtype)
+                rt1 = 1e-4 if xdtype == "float32" else 1e-9
+                if got1.shape != exp1.shape or not numpy.allclose(got1, exp1, rtol=rt1, atol=rt1 * (1 + float(
+                        numpy.nanmax(numpy.abs(exp1)) if exp1.size else 0)), equal_nan=True):
+                    ctx.violation(K + "%s/not-the-bucket-model/unseen-row-first" % meth, "a batch of %d rows whose only row of "
+                                  "an unseen bucket is the first one: %s differs from what the same rows get inside the "
+                                  "full batch (fallback = global model)" % (len(sel), meth), cfg=cfg)
     if clf:
         ctx.hit("proba.simplex")
         P = ref["predict_proba"]
